@@ -2,7 +2,8 @@
    Model: Model/Content.v (loop of TextExtractor::parse_internal over the token list) with gen/OpTable.v (the
    OPERATORS table) and gen/Trans.v (the transition match) TRANSLATED from the Rust sources on every run.
    Spec: Spec/Fig9.v (Table 51, Figure 9, Table 109, documented separator tokens), written by hand. *)
-From PV Require Import Model.ContentLex Proofs.Content Proofs.ContentLex Proofs.ContentLexTotal.
+From PV Require Import Model.ContentLex Spec.ContentSpelling Proofs.ObjSpell Proofs.Content Proofs.ContentLex Proofs.ContentLexTotal
+     Proofs.ContentLexRender.
 
 (* the sweep: for each of the 5 levels and each operator name of the implementation's table (73) or of Table 51
    (73): the translated match equals Figure 9, known-ness agrees, and the operand-handling arm and arity are
@@ -56,6 +57,49 @@ Theorem C12_reject_bytes : forall (rel : bool) (maxd : nat) (s : bytes) (items :
   exists k, extract_bytes rel maxd s = Err k.
 Proof. exact extract_bytes_illegal. Qed.
 Print Assumptions C12_reject_bytes.
+
+(* THE LEXER ROUND TRIP — C12 end to end on bytes.  [spells_cs F maxd items s] (Spec/ContentSpelling.v): s is a
+   spelling of the stream: any white space / comments between tokens; operands in any C02 spelling (Spec/Spelling.v:
+   numbers without a leading '+', names with #hh escapes, literal strings balanced modulo backslash, hex strings,
+   arrays and dictionaries to element depth maxd, true/false/null; no indirect reference as an operand); operators
+   by name (regular ASCII bytes, no '#', not starting like a number, not a keyword); a token ending in a regular
+   character is followed by white space, a delimiter or the end.  F = int_follow_sem, the look-ahead condition of
+   C02 for integers INSIDE arrays / dictionaries (top-level integers need none: CSObjP has no reference look-ahead).
+   2147483000: RawLiteralString counts parentheses in an i32. *)
+Theorem C12_lex_render : forall (rel : bool) (maxd : nat) (items : list item) (s : bytes),
+  spells_cs int_follow_sem maxd items s -> (Z.of_nat (len s) < 2147483000)%Z ->
+  cs_lex rel maxd s = Ok (flatten items).
+Proof. exact cs_lex_render. Qed.
+Print Assumptions C12_lex_render.
+
+Theorem C12_extract_bytes_rendered : forall (rel : bool) (maxd : nat) (items : list item) (s : bytes),
+  wf_items items = true -> legal_walk items = true ->
+  spells_cs int_follow_sem maxd items s -> (Z.of_nat (len s) < 2147483000)%Z ->
+  extract_bytes rel maxd s = Ok (tokens_spec items).
+Proof. exact extract_bytes_rendered. Qed.
+Print Assumptions C12_extract_bytes_rendered.
+
+Theorem C12_reject_bytes_rendered : forall (rel : bool) (maxd : nat) (items : list item) (s : bytes),
+  wf_items items = true -> illegal items = true ->
+  spells_cs int_follow_sem maxd items s -> (Z.of_nat (len s) < 2147483000)%Z ->
+  exists k, extract_bytes rel maxd s = Err k.
+Proof. exact reject_bytes_rendered. Qed.
+Print Assumptions C12_reject_bytes_rendered.
+
+(* OperatorP on a spelled operator name *)
+Theorem C12_operator_spelling : forall (n : bytes) (pre rest : bytes),
+  n <> [] -> forallb op_byte n = true -> term_stop rest ->
+  operator (pre ++ n ++ rest) (len pre) = POk (n, len pre, len pre + len n) (len pre + len n).
+Proof. exact operator_spec. Qed.
+Print Assumptions C12_operator_spelling.
+
+(* the hypotheses are satisfiable:  BT (Hi)Tj%c<LF>ET  *)
+Example C12_render_example :
+  let items := [IOp [] (B "BT"); IOp [OStr (B "Hi")] (B "Tj"); IOp [] (B "ET")] in
+  let s := B "BT" ++ B " " ++ B "(Hi)" ++ B "Tj" ++ (37%N :: B "c" ++ [10%N]) ++ B "ET" in
+  spells_cs int_follow_sem 50 items s /\ wf_items items = true /\ legal_walk items = true /\
+  (Z.of_nat (len s) < 2147483000)%Z.
+Proof. exact render_example. Qed.
 
 (* totality (used by the C01 composition): the byte-level extractor neither panics nor runs out of model fuel on
    any buffer below 2^31 bytes (the i32 parenthesis depth of RawLiteralString is the only unchecked arithmetic;
